@@ -85,7 +85,8 @@ CLAIMED = {
          "than pure getters / helper that does; no method stores into foreign objects; open_span is reset at entry) feed Lean theorems: every writer copies "
          "first or is read-only (writers_copy_or_pure) hence returns its argument unchanged whatever the body does, also when it raises (write_preserves_input); "
          "the document text of the DFXP / legacy / SAMI span machine does not depend on the flag left by earlier writes (write_resets_state) and, by induction over "
-         "any history of writes on one writer object, the n-th output equals a fresh writer's (output_history_independent). Execution: histories over all eight "
+         "any history of writes on one writer object, the n-th output equals a fresh writer's (output_history_independent); the translator's scan of every module for "
+         "caching decorators and weak-reference flyweight tables is empty (no_process_wide_memo). Execution: histories over all eight "
          "writers and option combinations with deep before/after snapshots, reused vs fresh writers, the model's open_span flag vs the real attribute, and "
          "byte comparison with pristine sub-processes under three hash seeds."),
    ref="§3 C09", technique="translator-derived structure flags + Lean 4 proof over the writer-state model + history execution with snapshots and sub-processes",
@@ -95,7 +96,9 @@ CLAIMED = {
          "__init__ before processing lines; SAMIParser.langs is an ordered container) feed Lean theorems: reading with a reused SCCReader equals reading with a "
          "fresh one for every prior state and document (read_independent_of_history, over the full reader model), the style dictionaries of two results are "
          "distinct objects so an edit to one never shows in the other (fresh_results_isolated, allocation model), SAMI languages come in first-appearance "
-         "order independently of any iteration-order permutation (languages_in_first_appearance_order). Execution: histories of reads/edits/writes over six "
+         "order independently of any iteration-order permutation (languages_in_first_appearance_order); no function of the library memoises what it returns "
+         "(no_process_wide_memo: the translator's scan for caching decorators / weak-reference tables over every module is empty), hence two constructed objects "
+         "are distinct and an in-place edit of one never shows in the other (constructed_objects_distinct). Execution: histories of reads/edits/writes over six "
          "formats with reader reuse; every read compared with pristine sub-processes under three hash seeds; all other results re-snapshotted after every edit."),
    ref="§3 C10", technique="translator-derived structure flags + Lean 4 proof over allocation / reader-state models + history execution with sub-processes",
    note=NOTE_COMMON + "CPython object identity is modelled by allocation ids; hash seeds by execution; the other readers keep no state between calls (checked by execution only)."),
@@ -158,7 +161,9 @@ CLAIMED = {
  "C15": dict(
    text=("Lean theorem scan_raises_iff_long_line: for every reader end state, the line-length error is raised iff some stored caption has a line longer than 32 "
          "characters — independent of how captions share start keys and of their order (by an invariant over the dict-building fold, scan_collects_all; "
-         "scan_keys_nodup). Correspondence and oracle on all three modes, rows of 0-40 characters, every long/short pattern over up to four same-start captions."),
+         "scan_keys_nodup); the error NAMES each offending line: for every stored caption and every line of it longer than 32 characters — whichever row, however many "
+         "captions share the start time, in whatever order — the message contains that line followed by ' - Length n' (error_names_each_offending_line, via "
+         "scan_holds_each and message_names), and the scan lists nothing but such lines (scan_holds_only). Correspondence and oracle on all three modes, captions of up to 12 adjacent rows, rows of 0-40 characters, every long/short pattern over up to four same-start captions."),
    ref="§3 C15", technique="Lean 4 proof (fold invariant over the insertion-ordered dict) + correspondence + exhaustive small patterns",
    note=NOTE_COMMON + "The key printed in the message is format_start() of a float time and may differ by one millisecond from the exact model (normalised in the comparison)."),
  "C16": dict(
@@ -242,7 +247,7 @@ CLAIMED = {
          "rejections are syntax errors, padding shorthands of 1-4 sizes expand in TTML order and print in TTML order; for EVERY non-negative size, parsing what "
          "__str__ printed gives the value rounded half-to-even to two decimals with the same unit (size_print_parse: whole numbers, stripped zeros and two-decimal "
          "spellings are each read back as printed), a value of at most two decimals is reproduced exactly (size_print_parse_exact) and printing is stable under "
-         "re-parsing (size_print_idempotent). Correspondence: all ordered pairs of a "
+         "re-parsing (size_print_idempotent); no function of the library memoises what it returns (no_process_wide_memo, translator scan). Correspondence: all ordered pairs of a "
          "per-type grid, every string of length <=4 (quick) / <=5 (thorough) over the 14-symbol alphabet, print/re-parse grid incl. 2-decimal ties, receiver snapshots."),
    ref="§3 C18", technique="Lean 4 proof (structural, string induction for the grammar) + pinned regex text + exhaustive short-string correspondence",
    note=NOTE_COMMON + "Real hash() is only checked for 'equal implies equal hash' by execution; float printing is compared against the exact-rational model fed with the float's exact binary value (round(value, 2) and the ':.2f' formatting of doubles are modelled by exact half-even rounding; the print/re-parse theorems are about that model, their agreement with the float code is established by execution on the value grid)."),
@@ -250,7 +255,8 @@ CLAIMED = {
  "C19": dict(
    text=("Lean theorems for every caption list (any length, any rational times, opaque nodes): the accumulator loop of merge_concurrent_captions "
          "equals 'one caption per maximal run of equal (start,end), nodes joined by breaks' (merge_runs), a singleton run is unchanged "
-         "(merge_others_untouched), merging twice = once (merge_idempotent), runs partition the input (runs_flatten); adjust_caption_timing's loop "
+         "(merge_others_untouched), merging twice = once (merge_idempotent), runs partition the input (runs_flatten), all captions of a run have the times of its first (runs_uniform) and neighbouring merged captions never "
+         "have the same times, i.e. runs are maximal (merged_neighbours_differ); adjust_caption_timing's loop "
          "equals map(t*skew+offset) then filter(start>=0) (adjust_affine_filter). Correspondence: random multi-language sets with runs of every "
          "length/position, exact Fraction and float skews, offsets of both signs, node identity tracked by id()."),
    ref="§3 C19", technique="Lean 4 proof (induction over the caption list with the loop state as invariant) + differential correspondence",
